@@ -5,6 +5,7 @@ import itertools
 
 import numpy as np
 
+from vivarium.core.process import Process
 from vivarium.core.store import Store
 from vivarium.library.units import units, Quantity
 
@@ -413,6 +414,108 @@ def check_case(job, acc):
           f'{a_flat}')
 
 
+# ----------------------------------------------------------------------
+# the _reduce update form: the value handed to the updater is a reduction
+# over the store subtree named by 'from' (relative to the variable)
+
+class ReduceProc(Process):
+    """Returns its scripted updates, one per invocation."""
+    defaults = {'schema': {}, 'updates': []}
+
+    def ports_schema(self):
+        return copy.deepcopy(self.parameters['schema'])
+
+    def next_update(self, timestep, states):
+        ups = self.parameters['updates']
+        return ups.pop(0) if ups else {}
+
+
+REDUCE_FROM = {
+    'box': (('..', 'box'), [(), ('a',), ('b',), ('deep',), ('deep', 'c')]),
+    'deep': (('..', 'box', 'deep'), [(), ('c',)]),
+    'all': (('..',), [(), ('box',), ('box', 'a'), ('box', 'b'),
+                      ('box', 'deep'), ('box', 'deep', 'c'), ('total',)]),
+}
+
+
+def reduce_case(vals, t0, tupd, init, frm, order, route, acc):
+    label = {'updater': f'reduce:{tupd}', 'vals': vals, 'total': t0,
+             'initial': init, 'from': frm, 'order': order, 'route': route}
+    V = lambda rule, fp, msg: acc.violate(  # noqa
+        fw.violation(rule, fp, msg, label))
+    a, b, c = vals
+    leafs = lambda d, u='accumulate': {  # noqa
+        '_default': d, '_updater': u, '_emit': True}
+    config = {'box': {'a': leafs(a), 'b': leafs(b),
+                      'deep': {'c': leafs(c)}},
+              'total': leafs(t0, tupd)}
+    visited = []
+
+    def reducer(value, path, node):
+        visited.append(tuple(path))
+        if not node.inner and isinstance(node.value, (int, float)):
+            return value + node.value
+        return value
+
+    red = {'total': {'_reduce': {'from': REDUCE_FROM[frm][0],
+                                 'initial': init, 'reducer': reducer}}}
+    bump = {'box': {'a': 1, 'deep': {'c': 2}}}
+    script = {'reduce': [red], 'bump-reduce': [bump, red],
+              'reduce-bump': [red, bump]}[order]
+    # reference
+    cur = {'a': a, 'b': b, 'c': c, 'total': t0}
+    for u in script:
+        if u is bump:
+            cur['a'] += 1
+            cur['c'] += 2
+        else:
+            r = init + {'box': cur['a'] + cur['b'] + cur['c'],
+                        'deep': cur['c'],
+                        'all': cur['a'] + cur['b'] + cur['c']
+                        + cur['total']}[frm]
+            cur['total'] = r if tupd == 'set' else cur['total'] + r
+    want = {'box': {'a': cur['a'], 'b': cur['b'], 'deep': {'c': cur['c']}},
+            'total': cur['total']}
+    try:
+        if route == 'store':
+            store = Store(config)
+            store.apply_defaults()
+            for u in script:
+                store.apply_update(u)
+            got = probes.pure(store.get_value())
+        else:
+            from vivarium.core.engine import Engine
+            proc = ReduceProc({'schema': {'w': config},
+                               'updates': [{'w': u} for u in script]})
+            eng = Engine(processes={'r': proc},
+                         topology={'r': {'w': ('world',)}},
+                         emitter={'type': 'null'}, display_info=False)
+            eng.update(len(script) + 1)
+            got = probes.pure(eng.state.get_value())['world']
+    except Exception as e:  # noqa
+        V('C08.crash', f'reduce:{type(e).__name__}',
+          f'{label}: unexpected {e!r}')
+        return
+    if got != want:
+        V('C08.value', f'reduce-{tupd}',
+          f'_reduce from {REDUCE_FROM[frm][0]} (initial {init}) into a '
+          f'{tupd} variable, script {order} via {route}: state {got}, '
+          f'expected {want}')
+        return
+    if sorted(visited) != sorted(REDUCE_FROM[frm][1]):
+        V('C08.value', 'reduce-visits',
+          f'_reduce from {REDUCE_FROM[frm][0]}: the reducer was called on '
+          f'{sorted(visited)}, expected once on each of '
+          f'{sorted(REDUCE_FROM[frm][1])}')
+
+
+def reduce_jobs():
+    return list(itertools.product(
+        itertools.product((0, 2.5), repeat=3), (0, 5),
+        ('set', 'accumulate'), (0, 10), ('box', 'deep', 'all'),
+        ('reduce', 'bump-reduce', 'reduce-bump'), ('store', 'engine')))
+
+
 def same_tree(a, b):
     if isinstance(a, dict) and isinstance(b, dict):
         return set(a) == set(b) and all(same_tree(a[k], b[k]) for k in a)
@@ -508,6 +611,11 @@ def jobs(ctx):
 
 
 def run_index(job, acc):
+    if job[0] == 'reduce':
+        for rj in reduce_jobs()[job[1]::job[2]]:
+            acc.case(key=('reduce',) + rj, outcome=f'reduce:{rj[-1]}')
+            reduce_case(*rj, acc)
+        return
     lo, hi, quick = job
 
     class _C:
@@ -536,6 +644,7 @@ def run(ctx):
     n = len(_JOBS)
     step = 400
     idx = [(lo, min(lo + step, n), ctx.quick) for lo in range(0, n, step)]
+    idx += [('reduce', k, 4) for k in range(4)]
     return ctx.map(run_index, idx, chunk=1)
 
 
@@ -543,6 +652,11 @@ def replay(case):
     class _C:
         quick = True
     acc = fw.Acc()
+    if str(case['updater']).startswith('reduce:'):
+        reduce_case(tuple(case['vals']), case['total'],
+                    case['updater'].split(':')[1], case['initial'],
+                    case['from'], case['order'], case['route'], acc)
+        return [v for exs in acc.viol_examples.values() for v in exs]
     for j in jobs(_C()):
         if (j[0] == case['updater'] and tuple(j[1]) == tuple(case['path'])
                 and j[2] == case['siblings'] and j[6] == case['route']
@@ -555,3 +669,6 @@ def replay(case):
 
 RULE += (
     ' Engine route also through LEAF ports (the port is the variable, the update is the bare value - falsy values included).')
+
+RULE += (
+    ' The _reduce update form: a reduction (sum of the leaves, with an initial value) over the subtree named by from - a sibling branch, a nested branch, or the parent that holds the variable itself - handed to a set / accumulate variable, alone, after and before an ordinary update of the reduced leaves, through Store.apply_update and through a process in an Engine; the reducer is called exactly once on every node of the subtree.')
